@@ -254,4 +254,103 @@ theorem nameLoop_abs (origin : Option (List UInt8)) (nl : Nat) (ls : List PLabel
     simp [nameNewlines]
     omega
 
+/-! ### `parse_name` on absolute names -/
+
+/-- the first octet of a rendered non-empty label is a plain octet or a backslash: never `.`,
+    and if it is `@` then something that is not a field end follows (inside an absolute name) -/
+theorem renderLabel_head {l : PLabel} (hne : l ≠ []) (hl : ∀ x ∈ l, nameFormOK x.1 x.2 = true) :
+    ∃ c t, renderLabel l = c :: t ∧ (c == 46) = false ∧ (c = 92 ∨ special c = false) := by
+  cases l with
+  | nil => exact absurd rfl hne
+  | cons x l' =>
+    have hx := hl x (by simp)
+    obtain ⟨b, f⟩ := x
+    cases f with
+    | raw =>
+      simp only [nameFormOK, Bool.and_eq_true, Bool.not_eq_true', bne_iff_ne, ne_eq] at hx
+      exact ⟨b, renderLabel l', by simp [renderLabel, renderOctet], by simpa using hx.2, .inr hx.1⟩
+    | esc => exact ⟨92, b :: renderLabel l', by simp [renderLabel, renderOctet], by decide, .inl rfl⟩
+    | dec => exact ⟨92, _, by simp [renderLabel, renderOctet]; rfl, by decide, .inl rfl⟩
+
+theorem atFieldEnd_of_head {c : UInt8} (t : List UInt8) (h : c = 92 ∨ special c = false) :
+    atFieldEnd (c :: t) = false := by
+  rcases h with rfl | h
+  · exact atFieldEnd_backslash t
+  · exact atFieldEnd_plain t h
+
+theorem expectField_fail_of_not_end (f : List UInt8) (st : St) (h : atFieldEnd (st.inp.drop f.length) = false) :
+    expectField f st = (false, st) := by
+  unfold expectField expectFieldImpl
+  split
+  · rfl
+  · simp [h]
+
+theorem expectField_fail_of_head {f0 : UInt8} (st : St) {c : UInt8} {t : List UInt8} (hinp : st.inp = c :: t)
+    (hc : (c == f0) = false) : expectField [f0] st = (false, st) := by
+  unfold expectField expectFieldImpl
+  simp [hinp, hc]
+
+theorem notEnd_label_then_dot (l : PLabel) (hl : ∀ x ∈ l, nameFormOK x.1 x.2 = true) (tail : List UInt8) :
+    atFieldEnd (renderLabel l ++ 46 :: tail) = false := by
+  cases l with
+  | nil => exact atFieldEnd_plain _ (by decide)
+  | cons x l' =>
+    obtain ⟨c, t, hct, _, hend⟩ := renderLabel_head (l := x :: l') (by simp) hl
+    rw [hct]; exact atFieldEnd_of_head _ hend
+
+/-- **Absolute names through `parse_name`**: the text of an absolute name with at least one
+    label, in any admissible mix of forms, followed by a field end, parses to its wire form
+    (whatever the origin is), consuming exactly the name and counting escaped newlines. -/
+theorem parseName_abs (origin : Option (List UInt8)) (ls : List PLabel) (hne : ls ≠ [])
+    (hforms : ∀ l ∈ ls, ∀ x ∈ l, nameFormOK x.1 x.2 = true)
+    (hLs : LabelsOK (ls.map labelOctets))
+    (htotal : (flatLabels (ls.map labelOctets)).length + 1 ≤ 255)
+    (rest : List UInt8) (hrest : atFieldEnd rest = true) (line : Nat) (paren : Bool) :
+    parseName origin ⟨renderAbsName ls ++ rest, line, paren⟩ =
+      .ok (wireName (ls.map labelOctets), ⟨rest, line + nameNewlines ls, paren⟩) := by
+  cases ls with
+  | nil => exact absurd rfl hne
+  | cons l ls' =>
+    have hlne : l ≠ [] := by
+      have := (hLs (labelOctets l) (by simp)).1
+      intro h; subst h; simp [labelOctets] at this
+    have hfl := hforms l (by simp)
+    let tail := (ls'.flatMap fun l => renderLabel l ++ [46]) ++ rest
+    have htext : renderAbsName (l :: ls') ++ rest = renderLabel l ++ 46 :: tail := by
+      simp [renderAbsName, tail]
+    -- neither `@` nor `.` alone
+    have hat : expectField [64] ⟨renderAbsName (l :: ls') ++ rest, line, paren⟩ =
+        (false, ⟨renderAbsName (l :: ls') ++ rest, line, paren⟩) := by
+      rw [htext]
+      cases l with
+      | nil => exact absurd rfl hlne
+      | cons x l' =>
+        obtain ⟨b, f⟩ := x
+        have hl' : ∀ y ∈ l', nameFormOK y.1 y.2 = true := fun y hy => hfl y (by simp [hy])
+        cases f with
+        | raw =>
+          by_cases hb : (b == 64) = true
+          · apply expectField_fail_of_not_end
+            simp only [renderLabel, List.flatMap_cons, renderOctet, List.singleton_append, List.cons_append,
+              List.length_singleton, List.drop_succ_cons, List.drop_zero]
+            exact notEnd_label_then_dot l' hl' tail
+          · exact expectField_fail_of_head _ (c := b) rfl (by simpa using hb)
+        | esc => exact expectField_fail_of_head _ (c := 92) rfl (by decide)
+        | dec => exact expectField_fail_of_head _ (c := 92) rfl (by decide)
+    have hdot : expectField [46] ⟨renderAbsName (l :: ls') ++ rest, line, paren⟩ =
+        (false, ⟨renderAbsName (l :: ls') ++ rest, line, paren⟩) := by
+      rw [htext]
+      obtain ⟨c, t, hct, hc46, _⟩ := renderLabel_head hlne hfl
+      rw [hct]
+      exact expectField_fail_of_head _ (c := c) rfl hc46
+    unfold parseName
+    simp only [hat, hdot, Bool.false_eq_true, ↓reduceIte]
+    have := nameLoop_abs origin line (l :: ls') hforms rest hrest paren [] line line
+      (by simpa using hLs) (by simpa using htotal)
+    simp only [flatLabels, List.flatMap_nil, List.length_nil, Nat.zero_add, List.nil_append] at this
+    simp only [renderAbsName, List.isEmpty_cons, Bool.false_eq_true, ↓reduceIte, Builder.new]
+    rw [this]
+    simp [wireName, flatLabels, encLabel]
+    rfl
+
 end QV.ZF
